@@ -558,7 +558,60 @@ def single_assignments_of(f, e):
     return []
 
 
+TERMS = "smt_encoding.complete_encoding.synthesis_opcode_term_creation"
+
+
+def rule_f(ctx, out):
+    """Integer codes of stack terms are pairwise different, and the code of `empty` is none of them.  opcode_rep_with_int numbers a
+    collection with enumerate and takes `base + len(table)` as the next free code; that is a fresh code only if the numbering is
+    dense, i.e. the enumerate index counts exactly the elements that are kept (no filter between enumerate and the table)."""
+    f = ctx.func(f"{TERMS}.UninterpretedOpcodeTermCreation.opcode_rep_with_int")
+    n = 0
+    tables = {}
+    for st in f.node.body:
+        if isinstance(st, ast.Assign) and len(st.targets) == 1 and isinstance(st.targets[0], ast.Name) and isinstance(st.value, ast.DictComp):
+            dc = st.value
+            g = dc.generators[0]
+            if not (isinstance(g.iter, ast.Call) and call_name(g.iter) == "enumerate" and isinstance(g.target, ast.Tuple) and len(dc.generators) == 1):
+                continue
+            n += 1
+            idx = g.target.elts[0].id
+            val = dc.value
+            base = None
+            if isinstance(val, ast.BinOp) and isinstance(val.op, ast.Add):
+                names = [x for x in (val.left, val.right) if not is_name(x, idx)]
+                if len(names) == 1 and any(is_name(x, idx) for x in (val.left, val.right)):
+                    base = norm(names[0])
+            if base is None:
+                out.bad(f"term-codes:{st.targets[0].id}:value-shape", f"`{short(val, 40)}` is not <index> + <base>", where(f, st))
+                continue
+            if g.ifs:
+                out.bad(f"term-codes:{st.targets[0].id}:filtered-after-enumerate", f"opcode_rep_with_int: `{short(dc, 90)}` filters the elements after they were "
+                        f"numbered: the codes have gaps, and `{base} + len({st.targets[0].id})` is then one of them (the code of `empty` or of the next table)", where(f, st))
+                continue
+            tables[st.targets[0].id] = base
+            out.ok({"table": st.targets[0].id, "codes": f"{base} + 0 .. {base} + len-1 (dense)"})
+    if n < 2:
+        raise AnalysisError(f"opcode_rep_with_int: only {n} enumerate-numbered tables found")
+    # every "next free code" is base + len(table) of a dense table with that base
+    for node in own_nodes(f.node):
+        if isinstance(node, ast.Assign) and isinstance(node.value, ast.BinOp) and isinstance(node.value.op, ast.Add):
+            lens = [c for c in (node.value.left, node.value.right) if isinstance(c, ast.Call) and call_name(c) == "len" and c.args and isinstance(c.args[0], ast.Name)]
+            if not lens:
+                continue
+            n += 1
+            tab = lens[0].args[0].id
+            other = norm([c for c in (node.value.left, node.value.right) if c is not lens[0]][0])
+            if tab in tables and tables[tab] == other:
+                out.ok({"next_free_code": short(node, 70)})
+            else:
+                out.bad(f"term-codes:next-free-code:{norm(node.targets[0])}", f"`{short(node, 80)}` is not <base of {tab}> + len({tab}) of a densely numbered table", where(f, node))
+    if n < 4:
+        raise AnalysisError(f"opcode_rep_with_int: only {n} numbering facts found")
+
+
 RULES = [
+    ("C06.f", "integer codes of stack terms are dense; `empty` gets a fresh code", 4, rule_f),
     ("C06.e", "position families cover every admissible position", 15, rule_e),
     ("C06.d", "happens-before map under-approximates the dependency graph", 7, rule_d),
     ("C06.a", "every SMT symbol is declared", 10, rule_a),
